@@ -39,6 +39,12 @@ func init() {
 		"plain/l1/descr", "plain/l1/mtu", "plain/l2a/v"} {
 		ts = append(ts, T(p))
 	}
+	if os.Getenv("VERIF_NCLOOP_LEAFLISTS") != "" {
+		// exploration only (see the note on leaf-lists above)
+		for _, p := range []string{"plain/tags", "plain/l1/tags", "types/ll-str", "types/ll-u64", "types/ll-idr"} {
+			ts = append(ts, T(p))
+		}
+	}
 	UniNC = &Universe{Name: "nc-loop", Tmpls: ts}
 	Universes[UniNC.Name] = UniNC
 }
